@@ -42,12 +42,12 @@ var bitStem = map[string][]string{
 
 func runC02(c *Ctx) {
 	c.Rule("R02a", "reportable bits: the ChangeKind constants reachable in each comparison function (through its same-package callees) include every kind confirmed on the reference tree", 7)
-	c.Rule("R02f", "bit/guard association: each `change |= ChangeX` (or `return ChangeX`) in the comparison functions is guarded by a comparison that mentions the attribute X names, and no two different bits share an identical guard", 30)
-	c.Rule("R02c", "from/to symmetry: in functions with two parameters of the same schema type, a direct comparison whose operands are selector paths rooted at the two parameters uses the same path on both sides", 15)
-	c.Rule("R02h", "no unconditional change: in every comparison function of the differ files (two parameters of the same schema type) each change literal can be avoided within its loop iteration / function (it is control-dependent on a comparison): a schema compared with itself cannot produce it unless a comparison says so", 25)
+	c.Rule("R02f", "bit/guard association: each `change |= ChangeX` (or `return ChangeX`) in the comparison functions is guarded by a comparison that mentions the attribute X names, and no two different bits share an identical guard", 15)
+	c.Rule("R02c", "from/to symmetry: in functions with two parameters of the same schema type, a direct comparison whose operands are selector paths rooted at the two parameters uses the same path on both sides", 8)
+	c.Rule("R02h", "no unconditional change: in every comparison function of the differ files (two parameters of the same schema type) each change literal can be avoided within its loop iteration / function (it is control-dependent on a comparison): a schema compared with itself cannot produce it unless a comparison says so", 12)
 	c.Rule("R02d", "skip filter on every path (E-flow; same analysis as C19/R19a): no skippable kind reaches a differ result or a nested Changes field unfiltered", 4)
 	c.Rule("R02i", "identity by name first: in sqlx.ChecksDiff the matcher falls back to the expression comparison only on paths where at least one of the two constraint names is empty (two named constraints are the same constraint iff their names are equal)", 1)
-	c.Rule("R02j", "side purity: in the differ files, when two variables of the same type are compared attribute by attribute (A.p == B.p), no assignment makes an attribute of one a function of the other", 20)
+	c.Rule("R02j", "side purity: in the differ files, when two variables of the same type are compared attribute by attribute (A.p == B.p), no assignment makes an attribute of one a function of the other", 10)
 	c.Rule("R02g", "sqlite: a generated numeric foreign-key symbol is never an identity: every equality test between two ForeignKey.Symbol values in the SQLite differ is conjoined with !IsUint(symbol)", 1)
 
 	// ---- R02a
